@@ -16,7 +16,7 @@ RULE = ("metamorphic on the real code (model-free verdict: image of the program 
         "and index-deferred operands whose offset is symbolic / compound so that hoisting fires ('a+2(r0)', '-a(r1)', 'a*2+b(r3)', '@a+2(r0)', "
         "'. - a + 2(r0)', 'a + . / 2(r0)'), '.'-relative branches and sob, emt/trap/mark/spl, jsr, .word/.byte with expressions over all 12 infix and "
         "4 prefix operators, brackets < > and ( ), character literals, '.' (so operands of the impure operators / % << >> differ between copies); "
-        "base set first (.link), set after the code (unknown while compiling) or defaulted; compared with the textual unrolling (every copy re-parsed, "
+        "base set first (.link), set after the code (unknown while compiling) or defaulted; bodies may refer to a label located after the block (whose address depends on the block's length); compared with the textual unrolling (every copy re-parsed, "
         "nested repeats written out too).  The parser's own token tree of the body is converted to a Coq term and Model/TreeCache (threaded "
         "repeat_model and reference unrolled) is compared with both observed images.  A fixed small family has '.end' inside the body (known finding). "
         "(1b) the repetition budget (side condition of repeat_unroll; the bound is read from the regenerated Gen file): '.repeat N { }' flat and nested "
@@ -33,6 +33,11 @@ RULE = ("metamorphic on the real code (model-free verdict: image of the program 
         "(2c) 2-3 linked files with disjoint private names that reference each other's exported symbols (name::, name == v, .extern name before / "
         "after the definition, .extern all; labels and constants; either link order), the reference and the '.extern' operand spelled in another "
         "letter case than the definition in 60% of the cases, 15% with a case-variant duplicate export (must fail in both forms) = the concatenation. "
+        "(2d) insert_file per occurrence: sources in several directories (linked files in different directories, includes from and into "
+        "sub-directories, nested), every directory holding its OWN blob.bin / data.bin of other size and content (0-300 bytes); real files or "
+        "in-memory; in a share of the cases other spellings of the relative name (./x, ../dir/x) and inserts inside '.repeat'; = the program with "
+        "each insert written as the '.byte' data of the file its operand resolves to from the directory of the file that contains it; the "
+        "undecorated cases through Model/Structure with the file system keyed by (including file, name as written). "
         "(3) the same five transformations on rich programs from tools/proggen.py (labels, constants, forward references, exported symbols across "
         "files, local labels, repeats, strings, skips).  non-trivial = distinct program text whose transformation changes the text and, for repeat, "
         "has count >= 2 and a '.' / hoisted / impure / branch feature.  Domain restriction: '. = X' inside a body is generated only after a leading "
@@ -51,7 +56,7 @@ LEVEL_NOTE = ("TreeCache is a value-level model (final integer addresses): with 
               "Symbol scoping is outside both models (same env on both sides = the hypothesis 'no reference to an enclosing local label / no shared "
               "private names'); that side is covered by the metamorphic sweep on rich programs.  '%expr' registers are unmodelled (explicit Crash). "
               "Known finding: '.end' inside a '.repeat' body (hypothesis no_end_in_body; refutation of the full statement in Props/C16_findings.v). "
-              "Print Assumptions: closed under the global context for all 26 theorems.")
+              "Print Assumptions: closed under the global context for all 27 theorems.")
 TECHNIQUE = "Coq proof about hand-written executable models + model/implementation correspondence in coqc + metamorphic search oracle on the real code"
 ASSUME = ["pdpy11's parser maps the generated text to the token tree that is handed to the model (the tree is taken from the parser itself)",
           "symbols used in a '.repeat' body resolve to the same definitions in the unrolled text (no enclosing local labels referenced)",
@@ -193,7 +198,7 @@ def repeat_family(rep, rng, n_cases, n_end, with_model=True, label="repeat", all
         is_end = G.has_end_stmt(c.body)
         rep.count(f"{label}:{'end-in-body' if is_end else 'plain'}:{a['outcome']}")
         for f in c.feat:
-            if f.startswith(("base-", "nest", "count-", "hoist", "label-fixup")) or f in ("dot", "dot-rhs", "branch", "imm", "char"):
+            if f.startswith(("base-", "nest", "count-", "hoist", "label-fixup")) or f in ("dot", "dot-rhs", "branch", "imm", "char", "after-label"):
                 rep.count("feature:" + f)
         if c.n >= 2 and (c.feat & {"dot", "hoist-infix", "hoist-prefix", "branch"} or any(f.startswith("impure") for f in c.feat)):
             rep.nontrivial(("repeat", digest(c.repeat_text())))
@@ -216,8 +221,15 @@ def repeat_family(rep, rng, n_cases, n_end, with_model=True, label="repeat", all
                 if G.depth_of(blk) > 3:
                     raise G.Unsupported("depth")
                 lo, hi = 2 * c.npre, 4
+                tail = None
+                if "after-label" in c.feat:
+                    # the label after the block: its address follows from the layout (base + image length - 4)
+                    src = a if a["outcome"] == "ok" else b
+                    if src["outcome"] != "ok" or is_end:
+                        raise G.Unsupported("after-label, no image")
+                    tail = src["base"] + len(bytes.fromhex(src["code"])) - 4
                 # with '.end' in the body the written-out text ends inside the first copy: no tail there
-                t = "(%s, %s, %s, %s, %d%%nat, %s, %s)" % (G.env_coq(c.consts, c.base), C.zlit(c.start), G.tree_coq(cnt), G.items_coq(blk),
+                t = "(%s, %s, %s, %s, %d%%nat, %s, %s)" % (G.env_coq(c.consts, c.base, tail), C.zlit(c.start), G.tree_coq(cnt), G.items_coq(blk),
                                                           c.n, obs_term(a, lo, hi), obs_term(b, lo, 0 if is_end else hi))
                 terms.append(t)
                 idx.append(i)
@@ -787,6 +799,197 @@ def budget_family(rep, quick):
 
 
 # ------------------------------------------------------------------------------------------------
+# (2d) insert_file resolves its operand relative to the file that contains it
+INS_NAMES = ["blob.bin", "data.bin"]
+INS_DIRS = {0: "", 1: "other", 10: "sub", 11: "sub/deep", 12: "other"}
+
+
+def insert_dirs_case(rng):
+    """sources in several directories, every directory with its OWN blob.bin / data.bin (other size, other bytes);
+    each 'insert_file "name"' stands for the file the name resolves to from the directory of the file that
+    contains the statement.  -> dict(files fid -> stmts, ids, blobs (dir, name) -> bytes, decorated)"""
+    r = rng
+    blobs = {}
+    for d in sorted(set(INS_DIRS.values())):
+        for nm in range(len(INS_NAMES)):
+            size = r.choice([0, 1, 2, 3, 7, 30] if r.random() < 0.95 else [300])
+            blobs[(d, nm)] = bytes(r.randrange(256) for _ in range(size))
+
+    def stmts(n, n_ins):
+        out = []
+        for _ in range(n):
+            c = r.random()
+            if c < 0.4:
+                out += [("even",), ("dw", r.choice([0, 2, 4, 100]))]
+            elif c < 0.8:
+                out.append(("byte", [r.randrange(256) for _ in range(r.choice([1, 2, 4]))]))
+            else:
+                out.append(("blkb", r.choice([0, 1, 3])))
+        groups = [[x] for x in out]
+        # keep '.even' + '.word' together; an insert is followed by '.even' most of the time
+        merged = []
+        for g in groups:
+            if merged and merged[-1][-1] == ("even",) and g[0][0] == "dw":
+                merged[-1] += g
+            else:
+                merged.append(g)
+        for _ in range(n_ins):
+            ins = [("insn", r.randrange(len(INS_NAMES)))] + ([("even",)] if r.random() < 0.8 else [])
+            merged.insert(r.randrange(len(merged) + 1), ins)
+        return [x for g in merged for x in g]
+    files = {0: stmts(r.randrange(1, 4), r.choice([1, 1, 2])), 10: stmts(r.randrange(1, 3), r.choice([1, 1, 2]))}
+    ids = [0]
+    if r.random() < 0.5:
+        files[1] = stmts(r.randrange(1, 3), r.choice([1, 2]))
+        ids = [0, 1] if r.random() < 0.5 else [1, 0]
+    files[0].insert(r.randrange(len(files[0]) + 1), ("inc", 10))
+    if r.random() < 0.5:
+        files[11] = stmts(r.randrange(1, 3), 1)
+        files[10].insert(r.randrange(len(files[10]) + 1), ("inc", 11))
+    if r.random() < 0.4:
+        files[12] = stmts(1, 1)
+        files[r.choice(ids)].append(("inc", 12))
+    for fid in files:
+        files[fid].append(("even",))
+    # real-file decorations the model does not have: other spellings of the same relative name, '.repeat'
+    decorated = r.random() < 0.35
+    return {"files": files, "ids": ids, "blobs": blobs, "decorated": decorated, "base": r.choice([None, 0o1000, 0o2000, 0o40000]),
+            "deco_seed": r.randrange(1 << 30)}
+
+
+def insert_dirs_render(case, as_bytes, root=""):
+    """-> (linked [(name, text)], {path: text or bytes}) ; as_bytes: every insert written as the '.byte' data it stands for"""
+    import os
+    rd = random.Random(case["deco_seed"])
+    texts = {}
+    for fid, ss in sorted(case["files"].items()):
+        d = INS_DIRS[fid]
+        lines = []
+        for st in ss:
+            if st[0] == "insn":
+                data = case["blobs"][(d, st[1])]
+                name = INS_NAMES[st[1]]
+                how = rd.randrange(4) if case["decorated"] else 0
+                if how == 1:
+                    name = "./" + name
+                elif how == 2:
+                    name = "../" + (os.path.basename(d) if d else ".") + "/" + name if d else "./" + name
+                core = (".byte " + ", ".join(oct(b)[2:] for b in data)) if (as_bytes and data) else ("" if as_bytes else f'insert_file "{name}"')
+                if how == 3:
+                    lines += [".repeat 2 {", "    " + core, "    .even", "}"] if core else [".repeat 2 {", "    .even", "}"]
+                elif core:
+                    lines.append(core)
+            elif st[0] == "inc":
+                rel = os.path.relpath(os.path.join(INS_DIRS[st[1]], f"f{st[1]}.mac"), d or ".")
+                lines.append(f'.include "{rel}"')
+            else:
+                lines.append(s_text(st, None))
+        texts[fid] = "\n".join(lines) + "\n"
+    if case["base"] is not None:
+        texts[case["ids"][0]] = f".link {oct(case['base'])[2:]}\n" + texts[case["ids"][0]]
+
+    def path(fid):
+        return os.path.join(root, INS_DIRS[fid], f"f{fid}.mac") if root else os.path.join(INS_DIRS[fid], f"f{fid}.mac")
+    fs = {path(fid): t for fid, t in texts.items()}
+    for (d, nm), data in case["blobs"].items():
+        fs[os.path.join(root, d, INS_NAMES[nm]) if root else os.path.join(d, INS_NAMES[nm])] = data
+    return [(path(fid), texts[fid]) for fid in case["ids"]], fs
+
+
+def insert_dirs_coq(case):
+    def st(s, fid, as_bytes):
+        k = s[0]
+        if k == "insn":
+            data = case["blobs"][(INS_DIRS[fid], s[1])]
+            if as_bytes:
+                return ("SStmt (Byte %s)" % C.zlist(list(data))) if data else None
+            return "SInsertAt %d%%nat" % s[1]
+        if k == "dw":
+            return "SStmt (Plain (PDotWord %s))" % C.zlit(s[1])
+        if k == "even":
+            return "SStmt (Plain PEven)"
+        if k == "blkb":
+            return "SStmt (Plain (PBlkb %s))" % C.zlit(s[1])
+        if k == "byte":
+            return "SStmt (Byte %s)" % C.zlist(s[1])
+        return "SStmt (Include %d%%nat)" % s[1]
+
+    def tab(as_bytes):
+        return "[" + "; ".join("(%d%%nat, [%s])" % (fid, "; ".join(x for x in (st(s, fid, as_bytes) for s in ss) if x))
+                               for fid, ss in sorted(case["files"].items())) + "]"
+    blobs = "[" + "; ".join("(%d%%nat, %d%%nat, %s)" % (fid, nm, C.zlist(list(case["blobs"][(INS_DIRS[fid], nm)])))
+                            for fid in sorted(case["files"]) for nm in range(len(INS_NAMES))) + "]"
+    ids = "[" + "; ".join("%d%%nat" % i for i in case["ids"]) + "]"
+    base = case["base"] if case["base"] is not None else 0o1000
+    return blobs, tab(False), tab(True), ids, C.zlit(base)
+
+
+def insert_dirs_family(rep, rng, n_cases, with_model=True):
+    import os
+    import shutil
+    basedir = os.path.realpath("/tmp/c16")
+    root = os.path.join(basedir, "ins-%d" % os.getpid())
+    os.makedirs(root, exist_ok=True)
+    try:
+        cases = [insert_dirs_case(rng) for _ in range(n_cases)]
+        pairs, modes = [], []
+        for i, cs in enumerate(cases):
+            real = cs["decorated"] or i % 2 == 0
+            if real:
+                d = os.path.join(root, "c%d" % i)
+                # the program tree, and a sibling tree for the reference (its included sources differ too)
+                fa, fsa = insert_dirs_render(cs, False, d)
+                fb, fsb = insert_dirs_render(cs, True, d + "_ref")
+                for tree in (fsa, fsb):
+                    for pth, data in tree.items():
+                        os.makedirs(os.path.dirname(pth), exist_ok=True)
+                        with open(pth, "wb") as f:
+                            f.write(data if isinstance(data, bytes) else data.encode())
+                pairs.append((fa, fb, None, None))
+            else:
+                fa, fsa = insert_dirs_render(cs, False)
+                fb, fsb = insert_dirs_render(cs, True)
+                pairs.append((fa, fb, fsa, fsb))
+            modes.append("real" if real else "memory")
+        outs = run_pairs(pairs)
+        terms, tidx = [], []
+        for i, (cs, (a, b)) in enumerate(zip(cases, outs)):
+            rep.add_eval(2)
+            rep.count("files:insert-dirs:%s%s:%s" % (modes[i], ":decorated" if cs["decorated"] else "", a["outcome"]))
+            rep.nontrivial(("insert-dirs", digest(*[t for _, t in pairs[i][0]], str(sorted(cs["blobs"].items())))))
+            if view(a) != view(b):
+                fa0, fs0 = insert_dirs_render(cs, False, ROOT)
+                fb0, fs1 = insert_dirs_render(cs, True, ROOT)
+                rep.violate("insert-dirs:" + digest(*[t for _, t in fa0]),
+                            "'insert_file' differs from the '.byte' data of the file its operand resolves to from the directory of the including file",
+                            {"files": [list(x) for x in fa0], "files_transformed": [list(x) for x in fb0],
+                             "real_files": {k[len(ROOT) + 1:]: (v if isinstance(v, str) else {"hex": v.hex()}) for k, v in fs0.items()},
+                             "real_files_transformed": {k[len(ROOT) + 1:]: (v if isinstance(v, str) else {"hex": v.hex()}) for k, v in fs1.items()},
+                             "transformation": "insert->.byte per occurrence", "note": "{ROOT} = a scratch directory holding real_files"},
+                            impl=brief(a), impl_transformed=brief(b))
+            if with_model and not cs["decorated"]:
+                blobs, t1, t2, ids, base = insert_dirs_coq(cs)
+                terms.append("(%s, %s, %s, %s, %s, %s, %s)" % (blobs, t1, t2, ids, base, obs_term(a), obs_term(b)))
+                tidx.append(i)
+        if cases:
+            rep.sample({"insert_dirs_program": [list(x) for x in insert_dirs_render(cases[0], False)[0]], "impl": brief(outs[0][0])})
+        if terms:
+            codes = C.run_case_files(ID + "_ins", "Run.C16Run Model.Structure", "Open Scope Z_scope.", C.shard(terms, 150),
+                                     judge_expr="map judge_inserts cases", cases_type="list icase")
+            for i, code in zip(tidx, [x for sh in codes for x in sh]):
+                rep.traces_validated += 1
+                if code & 1:
+                    rep.disagree("Model/Structure (insert_file keyed by including file and name) vs the implementation",
+                                 {"files": [list(x) for x in pairs[i][0]]}, impl=[brief(outs[i][0]), brief(outs[i][1])])
+    finally:
+        shutil.rmtree(root, ignore_errors=True)
+        try:
+            os.rmdir(basedir)
+        except OSError:
+            pass
+
+
+# ------------------------------------------------------------------------------------------------
 # (2c) linked files that use each other's exported symbols, in any letter case
 def _recase(rng, name, vary):
     if not vary:
@@ -974,6 +1177,10 @@ def materialise(root, files):
     for rel, text in files.items():
         path = os.path.join(root, rel)
         os.makedirs(os.path.dirname(path), exist_ok=True)
+        if isinstance(text, dict):
+            with open(path, "wb") as f:
+                f.write(bytes.fromhex(text["hex"]))
+            continue
         with open(path, "w") as f:
             f.write(text.replace(ROOT, root))
 
@@ -1040,6 +1247,10 @@ def explore(rep, br, tier, seed):
         err = err or ex
     paths_family(rep, rng, 80 if quick else 800)
     exports_family(rep, rng, 120 if quick else 1500)
+    try:
+        insert_dirs_family(rep, rng, 80 if quick else 1000, with_model=True)
+    except RuntimeError as ex:
+        err = err or ex
     rich_family(rep, rng, 60 if quick else 1200)
     probe_dot_assign(rep)
     rep.notes.append("repeat/unroll and the five file transformations are judged on the implementation alone; the Coq judge repeats the comparison "
@@ -1083,6 +1294,7 @@ def search(rep, br, tier, seed):
         structure_family(rep, rng, 300, with_model=False)
         paths_family(rep, rng, 100)
         exports_family(rep, rng, 200)
+        insert_dirs_family(rep, rng, 150, with_model=False)
         rich_family(rep, rng, 80)
         if any(v["signature"] != KNOWN_END for v in rep.violations):
             return
@@ -1097,10 +1309,15 @@ def replay(data):
         root = os.path.join(base, "replay-%d" % os.getpid())
         try:
             materialise(root, inp["real_files"])
+            root2 = root
+            if inp.get("real_files_transformed"):
+                root2 = root + "_ref"
+                materialise(root2, inp["real_files_transformed"])
             a = impl.assemble([(fn.replace(ROOT, root), t.replace(ROOT, root)) for fn, t in inp["files"]])
-            b = impl.assemble([(fn.replace(ROOT, root), t.replace(ROOT, root)) for fn, t in inp["files_transformed"]])
+            b = impl.assemble([(fn.replace(ROOT, root2), t.replace(ROOT, root2)) for fn, t in inp["files_transformed"]])
         finally:
             shutil.rmtree(root, ignore_errors=True)
+            shutil.rmtree(root + "_ref", ignore_errors=True)
             try:
                 os.rmdir(base)
             except OSError:
